@@ -12,6 +12,8 @@ import (
 
 	"github.com/ava-labs/hypersdk/chain"
 	"github.com/ava-labs/hypersdk/codec"
+
+	avacodec "github.com/ava-labs/avalanchego/codec"
 )
 
 const TestAuthTypeID = 0
@@ -68,11 +70,13 @@ func UnmarshalTestAuth(bytes []byte) (chain.Auth, error) {
 		return nil, fmt.Errorf("unexpected test auth typeID: %d != %d", bytes[0], TestAuthTypeID)
 	}
 
-	if err := codec.LinearCodec.UnmarshalFrom(
-		&wrappers.Packer{Bytes: bytes[1:]},
-		t,
-	); err != nil {
+	p := &wrappers.Packer{Bytes: bytes[1:]}
+	if err := codec.LinearCodec.UnmarshalFrom(p, t); err != nil {
 		return nil, err
+	}
+	// reject trailing bytes: an accepted encoding must re-encode to itself
+	if p.Offset != len(p.Bytes) {
+		return nil, avacodec.ErrExtraSpace
 	}
 	return t, nil
 }
